@@ -209,6 +209,18 @@ def gen_kernel(isa, rng, n, shape=None, noise=True):
                 L.append(g.gmov(3 + j % 2, base))
             else:
                 L.append(g.fma(j % 4, 4 + j % 4, 8 + j % 4))
+    elif shape == "wb_both":
+        # write-back loads whose data register AND updated base register are both consumed by the next
+        # instruction: one dependent reached through two kinds of dependency (plain and post/pre-indexed)
+        if isa == "x86":
+            return gen_kernel(isa, rng, n, "bump_mem", noise)
+        for j in range(n // 2):
+            base, data = j % 3, 5 + j % 4
+            if j % 2 == 0:
+                L.append("\tldr\tx%d, [x%d], #8" % (data, base))
+            else:
+                L.append("\tldr\tx%d, [x%d, #8]!" % (data, base))
+            L.append("\tadd\tx%d, x%d, x%d" % (base, base, data))
     elif shape == "ladder":
         # single-instruction LCDs first (pointer bumps, counters), then a ladder of k diamonds on one
         # accumulator (2^k cycles through it, thousands of raw paths), then independent padding
